@@ -126,6 +126,19 @@ Proof.
   - rewrite (mark_unw_none _ _ _ _ E) in N. discriminate.
 Qed.
 
+Lemma step_others_ext : forall s i k s', step s i k = Some s' -> forall j rj', j <> i -> nth_error (rs s') j = Some rj' ->
+  exists rj, nth_error (rs s) j = Some rj /\ ext rj' = ext rj.
+Proof.
+  intros s i k s' H j rj' NE N. destruct (step_Step _ _ _ _ H) as (r & f & rest & R & P & ST & S).
+  assert (G : forall r0, nth_error (upd (rs s) i r0) j = Some rj' -> exists rj, nth_error (rs s) j = Some rj /\ ext rj' = ext rj).
+  { intros r0 N0. rewrite nth_error_upd_other in N0 by auto. exists rj'. auto. }
+  inversion S; subst; simpl in N; eauto.
+  destruct (nth_error (upd (rs s) i (adv r f rest ops')) j) as [rj|] eqn:E.
+  - destruct (mark_unw_nth (skipn (cap ch) (q ch)) _ 0 _ _ E) as (b & N' & B). rewrite N' in N. inversion N; subst; simpl.
+    rewrite nth_error_upd_other in E by auto. exists rj. auto.
+  - rewrite (mark_unw_none _ _ _ _ E) in N. discriminate.
+Qed.
+
 Lemma step_length : forall s i k s', step s i k = Some s' -> length (rs s') = length (rs s).
 Proof.
   intros s i k s' H. destruct (step_Step _ _ _ _ H) as (r & f & rest & R & P & ST & S).
